@@ -170,7 +170,7 @@ def render_nosep(marked, base, at, run):
 def _layout_work(chunk):
     stats = {'cases': 0, 'nontrivial': 0, 'negative': 0, 'skipped_base_rejected': 0}
     failures, samples = [], []
-    for gname, rules, inputs, cfg in chunk:
+    for gname, rules, inputs, cfg, tier in chunk:
         cname, dtext, settings, runs, bad_runs, extra = cfg
         text = dtext + rules
         try:
@@ -188,11 +188,12 @@ def _layout_work(chunk):
                 base = outcome(lambda: parse(base_text))
                 w0 = {'grammar': text, 'settings': settings, 'parser': who, 'base_text': base_text}
                 if base[0] != 'ok':
-                    # the base layout must be accepted, else there is nothing to vary: a failure of the CHECK's
-                    # assumptions unless the configuration makes the grammar reject it for a documented reason
+                    # the base layout (the configuration's first run at every separator position) must be accepted:
+                    # every input is a sentence of its grammar, so a rejection means that a configured run was not skipped
                     stats['skipped_base_rejected'] += 1
-                    failures.append({'witness': w0, 'cls': 'base-layout-rejected',
-                                     'detail': f'{who}: the base layout of {marked!r} under configuration {cname} gives {base!r}'})
+                    failures.append({'witness': w0, 'cls': 'configured-run-not-skipped',
+                                     'detail': f'{who}: {marked!r} with the run {runs[0]!r} at every {SEP} under configuration {cname} '
+                                               f'gives {base!r}'})
                     continue
 
                 def positive(t, what):
@@ -214,8 +215,10 @@ def _layout_work(chunk):
 
                 for run in runs:
                     positive(render(marked, run), f'{run!r} at every position')
-                    for at in range(nsep):
-                        positive(render(marked, run, at, runs[0]), f'{run!r} at position {at}')
+                    for other in (runs if tier == 'thorough' else runs[:1]):
+                        # one position gets `run`, every other position `other` (quick tier: the base run only)
+                        for at in range(nsep):
+                            positive(render(marked, run, at, other), f'{run!r} at position {at}, {other!r} elsewhere')
                     if run != runs[0]:
                         # a longer run: the base run followed by this one
                         positive(render(marked, runs[0] + run), f'{runs[0] + run!r} at every position')
@@ -266,7 +269,7 @@ def _keep(failures, n=5):
 
 
 def layout_jobs(tier):
-    return [(gname, rules, inputs, cfg) for gname, rules, inputs in LAYOUT_GRAMMARS for cfg in LAYOUT_CONFIGS]
+    return [(gname, rules, inputs, cfg, tier) for gname, rules, inputs in LAYOUT_GRAMMARS for cfg in LAYOUT_CONFIGS]
 
 
 # --------------------------------------------------------------------------------------------------
@@ -555,7 +558,7 @@ def run(tier='quick', seed=0, info=None):
                    function='TextLinesCursor.next_token / eat_* and its call sites (token, rule entry, void, constant, eof) vs pattern, dot, upper-case rule entry',
                    domain=f'{len(LAYOUT_GRAMMARS)} grammars whose patterns match no whitespace x their marked inputs x '
                           f'{len(LAYOUT_CONFIGS)} configurations ({", ".join(c[0] for c in LAYOUT_CONFIGS)}) x every separator '
-                          'position (one at a time and all together) x every run of the configuration (blank, tab, CR LF, blanks '
+                          'position (one at a time -- thorough tier: against every other run elsewhere -- and all together) x every run of the configuration (blank, tab, CR LF, blanks '
                           'around line breaks, comments of each configured kind, comment + blank, doubled runs) incl. leading and '
                           'trailing positions; negative: runs before patterns / upper-case rules and runs that are not whitespace '
                           'under the configuration; model and generated parser',
